@@ -128,6 +128,45 @@ pub fn mutations<V: Fv>(valid: &[u8], ty: Ty, rng: &mut ChaCha20Rng, flips: usiz
         }
         out.push((format!("len-{}", l), b));
     }
+    // checksum-preserving edits, offered right after the valid string in the same thread (a
+    // memo of the last decoded object keyed by length / byte sum / xor would return the OLD
+    // object): byte swaps, +1/-1 on two bytes, the same bit flipped in two bytes, a rotation
+    for k in 0..8 {
+        let mut b = valid.to_vec();
+        let i = rng.gen_range(1..len);
+        let mut j = rng.gen_range(1..len);
+        if j == i {
+            j = 1 + (i % (len - 1));
+        }
+        let cls = match k % 4 {
+            0 => {
+                b.swap(i, j);
+                "sum-preserving-swap"
+            }
+            1 => {
+                if b[i] < 255 && b[j] > 0 {
+                    b[i] += 1;
+                    b[j] -= 1;
+                }
+                "sum-preserving-plus-minus"
+            }
+            2 => {
+                let bit = 1u8 << rng.gen_range(0..8);
+                b[i] ^= bit;
+                b[j] ^= bit;
+                "xor-preserving-double-flip"
+            }
+            _ => {
+                b[1..].rotate_left(1 + k);
+                "sum-preserving-rotation"
+            }
+        };
+        if b != valid {
+            // the valid string first, then the edited one
+            out.push(("valid-again".into(), valid.to_vec()));
+            out.push((cls.into(), b));
+        }
+    }
     // bit flips
     for _ in 0..flips {
         let mut b = valid.to_vec();
